@@ -195,6 +195,103 @@ pub open spec fn cas_post<'a, T>(r1: IResult<&'a [u8], T>, ext: bool, r: IResult
 SPEC = SPEC_CORE + SPEC_KX
 
 
+LOCALITY = r'''
+// ---------------------------------------------------------------------------------------------------------------
+// C06 LOCALITY as corollaries of the contracts alone: a structure decoded from b is decoded identically from b ++ x,
+// and the remainder simply grows by x (nested length fields can never reach into what follows).
+pub proof fn lemma_lp_local(b: Seq<u8>, x: Seq<u8>, o: int, w: int)
+    requires lp_ok(b, o, w), w == 1 || w == 2,
+    ensures lp_ok(b + x, o, w), lp_len(b + x, o, w) == lp_len(b, o, w), lp_next(b + x, o, w) == lp_next(b, o, w), lp_data(b + x, o, w) =~= lp_data(b, o, w),
+{
+    let bx = b + x;
+    assert(bx[o] == b[o]);
+    if w == 2 { assert(bx[o + 1] == b[o + 1]); }
+}
+proof fn lemma_dh_local(b: Seq<u8>, x: Seq<u8>, r1: IResult<&[u8], ServerDHParams>, r2: IResult<&[u8], ServerDHParams>)
+    requires dh_post(b, r1), r1 is Ok, dh_post(b + x, r2),
+    ensures r2 is Ok, r2->Ok_0.0@ =~= r1->Ok_0.0@ + x,
+        r2->Ok_0.1.dh_p@ =~= r1->Ok_0.1.dh_p@, r2->Ok_0.1.dh_g@ =~= r1->Ok_0.1.dh_g@, r2->Ok_0.1.dh_ys@ =~= r1->Ok_0.1.dh_ys@,
+{
+    let o1 = lp_next(b, 0, 2); let o2 = lp_next(b, o1, 2); let o3 = lp_next(b, o2, 2);
+    lemma_lp_local(b, x, 0, 2); lemma_lp_local(b, x, o1, 2); lemma_lp_local(b, x, o2, 2);
+    assert((b + x).subrange(o3, (b + x).len() as int) =~= b.subrange(o3, b.len() as int) + x);
+}
+proof fn lemma_ecpoint_local(b: Seq<u8>, x: Seq<u8>, r1: IResult<&[u8], ECPoint>, r2: IResult<&[u8], ECPoint>)
+    requires ecpoint_post(b, r1), r1 is Ok, ecpoint_post(b + x, r2),
+    ensures r2 is Ok, r2->Ok_0.0@ =~= r1->Ok_0.0@ + x, r2->Ok_0.1.point@ =~= r1->Ok_0.1.point@,
+{
+    lemma_lp_local(b, x, 0, 1);
+    let o1 = lp_next(b, 0, 1);
+    assert((b + x).subrange(o1, (b + x).len() as int) =~= b.subrange(o1, b.len() as int) + x);
+}
+proof fn lemma_ds_new_local(b: Seq<u8>, x: Seq<u8>, r1: IResult<&[u8], DigitallySigned>, r2: IResult<&[u8], DigitallySigned>)
+    requires ds_new_post(b, r1), r1 is Ok, ds_new_post(b + x, r2),
+    ensures r2 is Ok, r2->Ok_0.0@ =~= r1->Ok_0.0@ + x, r2->Ok_0.1.data@ =~= r1->Ok_0.1.data@,
+        r2->Ok_0.1.alg->Some_0.hash.0 == r1->Ok_0.1.alg->Some_0.hash.0, r2->Ok_0.1.alg->Some_0.sign.0 == r1->Ok_0.1.alg->Some_0.sign.0,
+{
+    lemma_lp_local(b, x, 2, 2);
+    let bx = b + x;
+    assert(bx[0] == b[0] && bx[1] == b[1]);
+    let o = lp_next(b, 2, 2);
+    assert(bx.subrange(o, bx.len() as int) =~= b.subrange(o, b.len() as int) + x);
+}
+proof fn lemma_ds_old_local(b: Seq<u8>, x: Seq<u8>, r1: IResult<&[u8], DigitallySigned>, r2: IResult<&[u8], DigitallySigned>)
+    requires ds_old_post(b, r1), r1 is Ok, ds_old_post(b + x, r2),
+    ensures r2 is Ok, r2->Ok_0.0@ =~= r1->Ok_0.0@ + x, r2->Ok_0.1.data@ =~= r1->Ok_0.1.data@, r2->Ok_0.1.alg is None,
+{
+    lemma_lp_local(b, x, 0, 2);
+    let o = lp_next(b, 0, 2);
+    assert((b + x).subrange(o, (b + x).len() as int) =~= b.subrange(o, b.len() as int) + x);
+}
+// explicit-prime layout: all six fields and the end offset are unchanged by a suffix
+proof fn lemma_ep_local(b: Seq<u8>, x: Seq<u8>)
+    requires ep_ok(b),
+    ensures ep_ok(b + x), ep_offs(b + x) == ep_offs(b),
+        forall|c: ExplicitPrimeContent| ep_val(b, c) <==> #[trigger] ep_val(b + x, c),
+{
+    let (o1, o2, o3, o4, o5, o6) = ep_offs(b);
+    lemma_lp_local(b, x, 0, 1); lemma_lp_local(b, x, o1, 1); lemma_lp_local(b, x, o2, 1);
+    lemma_lp_local(b, x, o3, 1); lemma_lp_local(b, x, o4, 1); lemma_lp_local(b, x, o5, 1);
+}
+proof fn lemma_ecparams_local(b: Seq<u8>, x: Seq<u8>, r1: IResult<&[u8], ECParameters>, r2: IResult<&[u8], ECParameters>)
+    requires ecparams_post(b, r1), r1 is Ok, ecparams_post(b + x, r2),
+    ensures r2 is Ok, r2->Ok_0.0@ =~= r1->Ok_0.0@ + x, ecparams_val(b, r2->Ok_0.1), ecparams_len(b + x) == ecparams_len(b),
+{
+    let bx = b + x;
+    assert(bx[0] == b[0]);
+    if b[0] == 1 {
+        let s = b.subrange(1, b.len() as int);
+        assert(bx.subrange(1, bx.len() as int) =~= s + x);
+        lemma_ep_local(s, x);
+        assert(ep_val(s + x, r2->Ok_0.1.params_content->ExplicitPrime_0));
+    } else {
+        assert(bx[1] == b[1] && bx[2] == b[2]);
+    }
+    let n = ecparams_len(b);
+    assert(bx.subrange(n, bx.len() as int) =~= b.subrange(n, b.len() as int) + x);
+}
+proof fn lemma_ecdh_local(b: Seq<u8>, x: Seq<u8>, r1: IResult<&[u8], ServerECDHParams>, r2: IResult<&[u8], ServerECDHParams>)
+    requires ecdh_post(b, r1), r1 is Ok, ecdh_post(b + x, r2),
+    ensures r2 is Ok, r2->Ok_0.0@ =~= r1->Ok_0.0@ + x, ecparams_val(b, r2->Ok_0.1.curve_params), r2->Ok_0.1.public.point@ =~= r1->Ok_0.1.public.point@,
+{
+    let bx = b + x;
+    assert(bx[0] == b[0]);
+    if b[0] == 1 {
+        let s = b.subrange(1, b.len() as int);
+        assert(bx.subrange(1, bx.len() as int) =~= s + x);
+        lemma_ep_local(s, x);
+        assert(ep_val(s + x, r2->Ok_0.1.curve_params.params_content->ExplicitPrime_0));
+    } else {
+        assert(bx[1] == b[1] && bx[2] == b[2]);
+    }
+    let n = ecparams_len(b);
+    lemma_lp_local(b, x, n, 1);
+    let o = lp_next(b, n, 1);
+    assert(bx.subrange(o, bx.len() as int) =~= b.subrange(o, b.len() as int) + x);
+}
+'''
+
+
 def lp_step(f, w, rdr):
     # order-independent: `off` is the running offset, so a layout whose fields are read in another order still goes
     # through the front end and fails its POSTCONDITION (not the hints)
@@ -287,5 +384,5 @@ UNIT = {
     ensures exists|r1: IResult<&'a [u8], T>| #[trigger] fun.ensures((i,), r1) && cas_post(r1, ext, r),
 """},
     ],
-    "epilogue": "",
+    "epilogue": LOCALITY,
 }
